@@ -287,13 +287,18 @@ def world(n, edges, n_derivers, deriver_kind, placement, tss, dynamic=None):
                              ('update', 1)],
               'no-procs': [('update', 2), ('run_for', 1, False)],
               }.get(dynamic, [('update', 3)])
+    engine = {}
+    if dynamic == 't0':
+        # the engine starts at a non-zero time: the constructor still
+        # runs one step phase
+        engine = {'initial_global_time': 10.5}
     if dynamic == 'no-procs':
         processes = {k: v for k, v in processes.items()
                      if not k.startswith('p')}
         topology = {k: v for k, v in topology.items()
                     if not (k.startswith('p') and k[1:].isdigit())}
     return {'processes': processes, 'steps': steps, 'flow': flow,
-            'topology': topology, 'script': script,
+            'topology': topology, 'script': script, 'engine': engine,
             'state': state, 'family': 'F', 'n': n, 'edges': tuple(edges),
             'derivers': n_derivers, 'deriver_kind': deriver_kind,
             'placement': placement, 'tss': tuple(tss), 'dynamic': dynamic}
@@ -620,7 +625,7 @@ def jobs(ctx):
     for n in (1, 2):
         for edges in dags[n]:
             for dyn in ('cut-half', 'cut-1.5', 'cut-forced', 'all-quiet',
-                        'no-procs'):
+                        'no-procs', 't0'):
                 for nd, placement in ((0, 'flat'), (1, 'comp')):
                     for tss in ((2,), (1, 2)):
                         if dyn == 'no-procs' and tss != (2,):
@@ -649,3 +654,6 @@ def replay(case):
 
 RULE += (
     ' Cut worlds: scripts whose calls end BETWEEN two batches of process updates (run_for(0.5) seven times against timesteps 2 and 1+2; 1.5 + 1.5 + forced 1; a forced 0.5 first), a tick in which every process is quiet, and a composite without any process: step phases run in the constructor and after each batch of process updates only - never in an iteration that applies nothing.')
+
+RULE += (
+    ' Worlds t0: the engine is built with initial_global_time = 10.5 (the constructor phase still runs).')
